@@ -57,6 +57,9 @@ func (fr *Frame) evalCall1(s *State, call *ast.CallExpr) []*Val {
 				callee = sel.Obj().(*types.Func)
 				recv = fr.evalRecv(s, f, sel)
 			} else if sel.Kind() == types.FieldVal {
+				if r, ok := fr.fieldFuncCall(s, f, sel, call); ok {
+					return r
+				}
 				fv := fr.eval(s, f)
 				if fv.Fn != nil {
 					return fr.callClosure(s, fv.Fn, call)
@@ -832,4 +835,45 @@ func (fr *Frame) assignable(e ast.Expr) bool {
 		return true
 	}
 	return false
+}
+
+// fieldFuncCall models a call through a func-typed struct field declared with `fieldfunc T.f hashconcat`:
+// the result is hash32 of the concatenation of the byte-slice arguments.
+func (fr *Frame) fieldFuncCall(s *State, f *ast.SelectorExpr, sel *types.Selection, call *ast.CallExpr) ([]*Val, bool) {
+	if fr.eng.fieldFuncs == nil {
+		return nil, false
+	}
+	rt := sel.Recv()
+	if p, ok := rt.Underlying().(*types.Pointer); ok {
+		rt = p.Elem()
+	}
+	named, ok := rt.(*types.Named)
+	if !ok || named.Obj().Pkg() == nil {
+		return nil, false
+	}
+	key := named.Obj().Pkg().Path() + "." + named.Obj().Name() + "." + sel.Obj().Name()
+	if fr.eng.fieldFuncs[key] != "hashconcat" {
+		return nil, false
+	}
+	if call.Ellipsis.IsValid() {
+		return nil, false
+	}
+	fr.eval(s, f.X) // nil-dereference obligation on the receiver
+	fr.eng.hashSym()
+	fr.eng.assumptions["calls through "+key+" are modelled as sha256 of the concatenated arguments (the value stored in the field is assumed to be common.Hasher)"] = true
+	cat := "(as seq.empty (Seq Int))"
+	var parts []string
+	for _, a := range call.Args {
+		v := fr.eval(s, a)
+		if !isByteSeq(v.T) {
+			return nil, false
+		}
+		parts = append(parts, v.S)
+	}
+	if len(parts) == 1 {
+		cat = parts[0]
+	} else if len(parts) > 1 {
+		cat = "(seq.++ " + strings.Join(parts, " ") + ")"
+	}
+	return []*Val{{T: fr.typeOf(call), S: fr.vc.define("hsum", "(Seq Int)", "(hash32 "+cat+")")}}, true
 }
